@@ -1497,6 +1497,16 @@ fn gen_case(rng: &mut Rng, n: usize, tier: &str, scratch: &std::path::Path, out:
                         }
                         ops.push(Op::Get(1));
                         ops.push(key_op(Home, none));
+                        if rng.chance(1, 3) {
+                            // glue, then a break, exactly at a boundary of a chosen symbol: the choice stays (C04-E)
+                            for _ in 0..(1 + rng.below(4)) {
+                                ops.push(key_op(Right, none));
+                            }
+                            ops.push(key_op(Tab, none));
+                            ops.push(key_op(Tab, none));
+                            ops.push(Op::Get(1));
+                            ops.push(key_op(Home, none));
+                        }
                         if rng.chance(1, 2) {
                             ops.push(key_op(Del, none));
                         } else {
@@ -1524,10 +1534,17 @@ fn gen_case(rng: &mut Rng, n: usize, tier: &str, scratch: &std::path::Path, out:
                     o[12] = 1 + rng.below(2) as u32;
                     ops.push(Op::Opts(o));
                     ops.push(Op::Engine(o[12] as u8));
+                    // a syllable without any word cannot be typed ("no such word"): it gets a user word, is typed, and the
+                    // user word is removed again - from then on it is shown by its spelling
                     let first = *rng.pick(&nw);
+                    let text: String = cjk(rng).to_string();
+                    ops.push(Op::Clear);
+                    ops.push(Op::Learn(vec![world.syls[first]], text.clone()));
                     for k in &world.keys[first] {
                         ops.push(key_op(*k, none));
                     }
+                    ops.push(Op::Unlearn(vec![world.syls[first]], text));
+                    ops.push(Op::Get(1));
                     for _ in 0..(lim + 1 + rng.below(2) as u32) {
                         let i = rng.below(world.syls.len() as u64) as usize;
                         for k in &world.keys[i] {
